@@ -3,6 +3,7 @@ CONSTANTS
   StrMax = 5
   KAll = 2
   KSem = 3
+  SemDims = {"tkeys", "iamt", "trs", "conv", "itype"}
   BigMenu = FALSE
 INIT Init
 NEXT Next
